@@ -166,12 +166,12 @@ def run(ctx):
     rt = st.fixed_dictionaries(
         {"spec": gen.msg_spec(max_children=8), "pad": st.one_of(st.just([]), st.lists(st.integers(0, 3), min_size=1, max_size=6))}
     )
-    ctx.hyp("roundtrip", rt, check_roundtrip, ctx.scale(700, 30000))
+    ctx.hyp("roundtrip", rt, check_roundtrip, ctx.scale(700, 15000))
     fo = st.fixed_dictionaries(
         {"spec": gen.msg_spec(max_children=5), "choices": gen.choices, "as_str": st.booleans()}
     )
-    ctx.hyp("foreign", fo, check_foreign, ctx.scale(700, 30000))
+    ctx.hyp("foreign", fo, check_foreign, ctx.scale(700, 15000))
     fo_l1 = st.fixed_dictionaries(
         {"spec": gen.msg_spec(max_children=3, max_cp=0xFF), "choices": gen.choices, "latin1": st.just(True)}
     )
-    ctx.hyp("foreign", fo_l1, check_foreign, ctx.scale(150, 5000))
+    ctx.hyp("foreign", fo_l1, check_foreign, ctx.scale(150, 3000))
